@@ -7,7 +7,8 @@
 (*   S.ctls  hierarchies: the v1 controllers in use, or {"u"} for cgroup2     *)
 (*   S.dirs  [ctl -> set of group directories], a directory is the sequence   *)
 (*           of names below the base group (<<>> = the base)                  *)
-(*   S.mem   [ctl -> [process -> directory]]; <<"-">> = outside the tree      *)
+(*   S.mem   [ctl -> [process -> directory]]; <<"-">> = outside the tree; a    *)
+(*           process is all its threads (the helpers are multi-threaded)       *)
 (*   S.hs    handles returned by the library, in order of creation:           *)
 (*           [path, ex (Existing()), own (hierarchies whose directory this    *)
 (*            handle created), acts (hierarchies the handle acts on), live]   *)
@@ -25,6 +26,9 @@
 (*   OpenKeepsLimits   obtaining another handle on an existing group leaves its *)
 (*                     limits alone (FALSE: the cpuset limit is re-initialised *)
 (*                     from the parent whenever a v1 handle is returned)       *)
+(*   MovesWholeProcess AddProc attaches the process = all its threads (FALSE:   *)
+(*                     only the thread whose id was written, e.g. through the  *)
+(*                     v1 tasks file; the helpers are multi-threaded)          *)
 (*   OwnsOnlyCreated   per hierarchy, only a directory the handle created is   *)
 (*                     recorded as created (FALSE: when the first hierarchy    *)
 (*                     was fresh, every hierarchy is -- also pre-existing ones)*)
@@ -36,9 +40,10 @@
 (* directory the handle does not own.                                          *)
 EXTENDS Integers, Sequences, FiniteSets
 
-CONSTANTS ControlsExisting, RandomFresh, OpenReturns, OwnsOnlyCreated, OpenKeepsLimits
+CONSTANTS ControlsExisting, RandomFresh, OpenReturns, OwnsOnlyCreated, OpenKeepsLimits, MovesWholeProcess
 
 Outside == <<"-">>
+Split == <<"*">>     \* the threads of the process are in different groups: never a state the property allows
 Child(p, n) == Append(p, n)
 IsChild(x, p) == Len(x) = Len(p) + 1 /\ SubSeq(x, 1, Len(p)) = p
 Exists(S, p) == \A c \in S.ctls : p \in S.dirs[c]
@@ -143,7 +148,7 @@ ImplOpen(S, p) ==
   IF ~Exists(S, p) THEN Res(S, TRUE, 0)
   ELSE IF OpenReturns THEN [SpecOpen(S, p) EXCEPT !.S = Reinit(@, p)] ELSE Res(S, FALSE, 0)
 ImplSet(S, h, kind, val) == SpecSet(S, h, kind, val)
-ImplAdd(S, h, k) == Res(Move(S, {k}, S.hs[h].path, S.hs[h].acts), FALSE, 0)
+ImplAdd(S, h, k) == Res(Move(S, {k}, IF MovesWholeProcess THEN S.hs[h].path ELSE Split, S.hs[h].acts), FALSE, 0)
 ImplDestroy(S, h) == IF S.hs[h].ex THEN SpecDestroyLazy(S, h) ELSE SpecDestroy(S, h)
 
 \* ---------------------------------------------------------------- admissible results
